@@ -90,11 +90,43 @@ func NewTable(localID identity.AgentID) *Table {
 	}
 }
 
+// canonicalNetwork returns the canonical form of a network: host bits cleared
+// and an IPv4-mapped IPv6 prefix (::ffff:a.b.c.d/96+n) expressed as the IPv4
+// prefix a.b.c.d/n that net.IPNet.Contains treats it as. Networks are keyed and
+// compared by this form, so that every stored prefix has exactly one table key
+// and Mask.Size() reports the length Contains matches with. It returns nil for
+// a network that net.IPNet cannot interpret (mask/address length mismatch or a
+// non-contiguous mask); such a network contains no address.
+func canonicalNetwork(network *net.IPNet) *net.IPNet {
+	if network == nil {
+		return nil
+	}
+	_, canonical, err := net.ParseCIDR(network.String())
+	if err != nil {
+		return nil
+	}
+	return canonical
+}
+
+// networkKey returns the table key of a network (its canonical CIDR string).
+func networkKey(network *net.IPNet) string {
+	if canonical := canonicalNetwork(network); canonical != nil {
+		return canonical.String()
+	}
+	return network.String()
+}
+
 // AddRoute adds or updates a route in the table.
 // Returns true if the route was added/updated, false if rejected (e.g., loop detected).
 func (t *Table) AddRoute(route *Route) bool {
 	if route == nil || route.Network == nil {
 		return false
+	}
+
+	// Store and key routes by the canonical form of their network
+	network := canonicalNetwork(route.Network)
+	if network == nil {
+		return false // Not a usable network
 	}
 
 	// Check for routing loops (is our ID in the path?)
@@ -104,7 +136,7 @@ func (t *Table) AddRoute(route *Route) bool {
 		}
 	}
 
-	key := route.Network.String()
+	key := network.String()
 	now := time.Now()
 
 	t.mu.Lock()
@@ -118,6 +150,7 @@ func (t *Table) AddRoute(route *Route) bool {
 			if route.Sequence > r.Sequence ||
 				(route.Sequence == r.Sequence && route.Metric < r.Metric) {
 				cloned := route.Clone()
+				cloned.Network = network
 				cloned.LastUpdate = now
 				t.routes[key][i] = cloned
 				t.sortRoutes(key)
@@ -129,6 +162,7 @@ func (t *Table) AddRoute(route *Route) bool {
 
 	// New route from this origin
 	cloned := route.Clone()
+	cloned.Network = network
 	cloned.LastUpdate = now
 	t.routes[key] = append(t.routes[key], cloned)
 	t.sortRoutes(key)
@@ -149,7 +183,7 @@ func (t *Table) RemoveRoute(network *net.IPNet, originAgent identity.AgentID) bo
 		return false
 	}
 
-	key := network.String()
+	key := networkKey(network)
 
 	t.mu.Lock()
 	defer t.mu.Unlock()
@@ -274,7 +308,7 @@ func (t *Table) GetRoute(network *net.IPNet) *Route {
 		return nil
 	}
 
-	key := network.String()
+	key := networkKey(network)
 
 	t.mu.RLock()
 	defer t.mu.RUnlock()
@@ -292,7 +326,7 @@ func (t *Table) GetAllRoutesForNetwork(network *net.IPNet) []*Route {
 		return nil
 	}
 
-	key := network.String()
+	key := networkKey(network)
 
 	t.mu.RLock()
 	defer t.mu.RUnlock()
@@ -367,7 +401,7 @@ func (t *Table) HasRoute(network *net.IPNet, originAgent identity.AgentID) bool 
 		return false
 	}
 
-	key := network.String()
+	key := networkKey(network)
 
 	t.mu.RLock()
 	defer t.mu.RUnlock()
